@@ -94,7 +94,17 @@ def main(argv):
     out = {}
     for m in want:
         specs_fn, imports = catalog.MODULES[m]
-        s = generate(m, specs_fn(), imports)
+        try:
+            specs = specs_fn()
+            cat_err = None
+        except Exception as e:   # noqa: BLE001 -- the catalog itself no longer fits the code (e.g. an expression gained a dependency):
+            specs = []           # not fatal: recorded, the Lean modules lose their definitions and the obligations break
+            cat_err = {"kind": "CatalogError", "msg": "%s: %s" % (type(e).__name__, str(e)[:400]),
+                       "trace": traceback.format_exc().splitlines()[-6:]}
+        s = generate(m, specs, imports)
+        if cat_err:
+            s["errors"][m + ".catalog"] = cat_err
+            write_if_changed(os.path.join(VERIF, "work", "extract", m + ".json"), json.dumps(s, indent=1))
         out[m] = s
         print("gen %-10s functions=%d errors=%d changed=%s" % (m, len(s["functions"]), len(s["errors"]), s["changed"]))
         for k, e in s["errors"].items():
